@@ -2,7 +2,8 @@
 From Coq Require Import List NArith ZArith.
 From N0 Require Import Base.PyStr Base.PyVal Xpath.Dec Xpath.DecProofs Xpath.Token Xpath.TokenProofs
   Xpath.Find Xpath.FindProofs Xpath.Write Xpath.SpecProofs Xpath.WalkProofs Xpath.TokenizeProofs Xpath.EnumProofs
-  Xpath.FstrProofs Xpath.DeleteProofs Xpath.CreateProofs Xpath.AppendProofs Xpath.PureProofs.
+  Xpath.FstrProofs Xpath.DeleteProofs Xpath.CreateProofs Xpath.AppendProofs Xpath.PureProofs
+  Xpath.PredOpsProofs Xpath.TildeListProofs Xpath.EmptyStepProofs.
 Import ListNotations.
 
 (* get / first convert every exception of the resolver that the funnel names
@@ -159,3 +160,37 @@ Theorem C04_below_scalar_is_miss :
   dict_get_core fuel root x re rl dflt = Ok (root, if re then LRaise ExIndex else dflt).
 Proof. exact lookup_below_scalar_is_miss. Qed.
 Print Assumptions C04_below_scalar_is_miss.
+
+(* a '~' condition on a list-valued field: the literal is taken as it stands (no numeric reading), the test never
+   raises, and on a list of texts it holds iff the literal IS one of the elements - a literal spelled with the letters
+   of several elements is no element, so such a path does not resolve *)
+Theorem C04_tilde_on_list_is_membership :
+  (forall c xs v, pred_literal (Lst c xs) (PvStr v) = Some (LitStr v)) /\
+  (forall c xs l, exists b, pred_test OpHas (Lst c xs) l = Ok b) /\
+  (forall c ss v, pred_test OpHas (Lst c (text_items ss)) (LitStr v) = Ok true <-> In v ss).
+Proof. exact (conj tilde_literal_on_list (conj tilde_on_list_total tilde_on_text_list)). Qed.
+Print Assumptions C04_tilde_on_list_is_membership.
+
+Theorem C04_tilde_on_list_example :
+  pred_test OpHas (Lst true (text_items [[120]; [121]]%N)) (LitStr [120; 121]%N) = Ok false /\
+  pred_test OpHas (Lst true (text_items [[120]; [121]]%N)) (LitStr [120]%N) = Ok true.
+Proof. exact tilde_list_example. Qed.
+Print Assumptions C04_tilde_on_list_example.
+
+(* an empty bracket step '[]' (blanks inside allowed) is ill-formed wherever it stands - first step or behind steps that
+   resolve, behind a fan-out, whatever follows: the resolver answers ValueError, a funnelled class; item access raises
+   it, get / first answer the default *)
+Theorem C04_empty_step_is_value_error :
+  forall selfok rl f root bl rest par parv fstr,
+  Forall (fun c => mem_chr c py_ws = true) bl ->
+  find selfok rl (S f) root ((c_lb :: bl ++ [c_rb]) :: rest) par parv fstr = Raise ExValue.
+Proof. exact find_empty_step. Qed.
+Print Assumptions C04_empty_step_is_value_error.
+
+Theorem C04_empty_step_example :
+  dict_get_core 50 es_tree es_x1 true false LEmpty = Ok (es_tree, LRaise ExValue) /\
+  dict_get_core 50 es_tree es_x1 false false (LVal (Leaf (SInt 9))) = Ok (es_tree, LVal (Leaf (SInt 9))) /\
+  dict_get_core 50 es_tree es_x2 true false LEmpty = Ok (es_tree, LRaise ExValue) /\
+  dict_get_core 50 es_tree es_x2 false false (LVal (Leaf (SInt 9))) = Ok (es_tree, LVal (Leaf (SInt 9))).
+Proof. exact empty_step_example. Qed.
+Print Assumptions C04_empty_step_example.
